@@ -215,6 +215,9 @@ pub struct Agg {
     pub violations: Vec<(u64, u64, Violation)>,
     pub died: Vec<(u64, String)>,
     pub trace_by_run: BTreeMap<u64, u64>,
+    pub states_total: u64,
+    pub shapes_total: u64,
+    pub nontrivial_total: u64,
 }
 
 impl Agg {
@@ -245,6 +248,9 @@ impl Agg {
         for (k, v) in &s.faults {
             *self.faults.entry(k.clone()).or_insert(0) += v;
         }
+        self.states_total += s.state_hashes.len() as u64;
+        self.shapes_total += s.shape_hashes.len() as u64;
+        self.nontrivial_total += s.nontrivial.len() as u64;
         self.states.extend(s.state_hashes.iter().copied());
         self.shapes.extend(s.shape_hashes.iter().copied());
         self.nontrivial.extend(s.nontrivial.iter().copied());
@@ -659,6 +665,13 @@ pub fn finish_check(
     } + extra.get("add_distinct").and_then(|v| v.as_u64()).unwrap_or(0) as usize;
     new_violations += extra.get("pre_violations").and_then(|v| v.as_u64()).unwrap_or(0) as usize;
     let add_evals = extra.get("add_evaluations").and_then(|v| v.as_u64()).unwrap_or(0);
+    // evaluations = cases evaluated: the (non-distinct) list the distinct count was taken from, never less than the runs
+    let cases_listed = match prop {
+        "C01" | "C15" => agg.shapes_total,
+        _ if !agg.nontrivial.is_empty() => agg.nontrivial_total,
+        _ => agg.states_total,
+    };
+    let base_evals = if agg.cases > 0 { agg.cases } else { agg.evaluations.max(cases_listed) };
     let unreached: Vec<String> = crate::probes::expected(prop).iter().filter(|p| agg.probes.get(**p).copied().unwrap_or(0) == 0).map(|s| s.to_string()).collect();
     let ev = json!({
         "property_id": prop,
@@ -668,10 +681,10 @@ pub fn finish_check(
         "wall_s": wall,
         "violations": new_violations,
         "coverage": {
-            "evaluations": add_evals + if agg.cases > 0 { agg.cases } else { agg.evaluations },
+            "evaluations": add_evals + base_evals,
             "simulated_runs": agg.evaluations,
             "distinct_nontrivial": distinct,
-            "rule": rule,
+            "rule": format!("{rule}. evaluations = number of evaluated cases of the kind the distinct count is taken from (never less than the number of simulated runs, which is reported as simulated_runs)"),
             "samples": samples,
             "engine": engine,
             "runs_per_hour": if wall > 0.0 { (agg.evaluations as f64 / wall * 3600.0) as u64 } else { 0 },
